@@ -7,6 +7,9 @@ MCOcc == CASE OccName = "s1"     -> [p \in 0..3 |-> IF p = 0 THEN "single" ELSE 
            [] OccName = "s_s"    -> [p \in 0..3 |-> IF p \in {1, 3} THEN "single" ELSE "none"]
            [] OccName = "ic4"    -> [p \in 0..3 |-> IF p \in {0, 1} THEN "ic" ELSE "single"]
            [] OccName = "none"   -> [p \in 0..3 |-> "none"]
+           [] OccName = "ic3"    -> [p \in 0..3 |-> IF p = 3 THEN "ic" ELSE "none"]
+           [] OccName = "mid"    -> [p \in 0..3 |-> IF p \in {1, 2} THEN "single" ELSE "none"]
+           [] OccName = "s4"     -> [p \in 0..3 |-> "single"]
 MCIdSteps == {1, 0, -1, 2}
 MCIdStepsSmall == {1, -1}
 =============================================================================
